@@ -98,6 +98,10 @@ static int replay(const char *path) {
     if (!b) std::printf("NOT-REPRODUCED\n");
     return b;
   }
+  if (in.job == "add_trackers_body" || !in.has("in_enabled")) {
+    std::printf("NOT-REPRODUCED: no native oracle for job %s (a native run needs a full DensitySubGridCreator grid with copies)\n", in.job.c_str());
+    return 0;
+  }
   Flags f = {in.u64("in_enabled") != 0, in.u64("in_sd") != 0, in.u64("in_sdi") != 0, in.u64("in_dpdf") != 0, in.u64("in_vpdf") != 0};
   unsigned poisoned = 0;
   unsigned mask = real_ctor(f, poisoned);
